@@ -87,14 +87,20 @@ fn de<'a>(style: &str, b: &'a [u8]) -> Result<(usize, &'a [u8]), ZVTError> {
 pub fn check_len(style: &str, n: usize, trailing: &[u8]) -> CheckResult {
     check_len_with(style, n, trailing, &|| json!({"style": style, "n": n, "trailing": hex(trailing)}))
 }
-/// pseudo-random filler bytes (deterministic in (seed, len))
+/// pseudo-random filler bytes (deterministic in (seed, len)): a window of one fixed 192 KiB buffer
 pub fn fill(seed: u64, len: usize) -> Vec<u8> {
-    (0..len).map(|k| (splitmix(seed ^ (k as u64 / 8)) >> (k % 8 * 8)) as u8).collect()
+    fill_ref(seed, len).to_vec()
+}
+fn fill_ref(seed: u64, len: usize) -> &'static [u8] {
+    static BUF: std::sync::OnceLock<Vec<u8>> = std::sync::OnceLock::new();
+    let b = BUF.get_or_init(|| (0..(192usize << 10)).map(|k| (splitmix(k as u64 / 8) >> (k % 8 * 8)) as u8).collect());
+    let off = (seed % 8191) as usize;
+    &b[off..off + len.min(b.len() - 8191)]
 }
 /// as check_len, with `len` filler bytes as trailing data (the replay file names seed and length instead of the bytes)
 pub fn check_len_fill(style: &str, n: usize, seed: u64, len: usize) -> CheckResult {
-    let trailing = fill(seed, len);
-    check_len_with(style, n, &trailing, &|| json!({"style": style, "n": n, "fill_seed": seed, "fill_len": len}))
+    let trailing = fill_ref(seed, len);
+    check_len_with(style, n, trailing, &|| json!({"style": style, "n": n, "fill_seed": seed, "fill_len": len}))
 }
 fn check_len_with(style: &str, n: usize, trailing: &[u8], input: &dyn Fn() -> Value) -> CheckResult {
     let want = ref_prefix(style, n);
@@ -287,6 +293,20 @@ pub fn run(tier: Tier) -> i32 {
                     st.class("data-amount:complete-object");
                     ctx.record(r, st);
                 }
+                // amounts derived from the length itself (its bytes swapped, halves, neighbours, complements): a parser
+                // must not let the amount of data behind the prefix decide how the prefix is read
+                if max > 999 {
+                    let sw = ((n & 0xff) << 8) | (n >> 8);
+                    for a in [sw, sw + 1, sw.saturating_sub(1), n >> 8, n & 0xff, n / 2, n.saturating_sub(1), n + 1, 65535 - n, n ^ 0xff, (n + 256) & 0xffff] {
+                        if a == n || a <= 5 {
+                            continue;
+                        }
+                        let r = check_len_fill(style, n, seed ^ a as u64, a);
+                        st.case(true, fnv(format!("{style}/{n}/derived{a}").as_bytes()));
+                        st.class("data-amount:derived-from-the-length");
+                        ctx.record(r, st);
+                    }
+                }
                 n += 64;
             }
         }
@@ -352,7 +372,7 @@ pub fn run(tier: Tier) -> i32 {
     ];
     ctx.finish(
         stats,
-        "enumeration: every representable length of each style x trailing data {none, 1 byte, 5 pseudo-random bytes, exactly n bytes}; 19 representative lengths per style x every amount of data 0..=1100 behind the prefix plus 4095 / 4096 / 65535..65537 / 65791 / 65792 / 100000; every byte string of length <= 3 through each parser. non-trivial = length >= 1 / non-empty string; distinct by (style, length, trailing) resp. (style, bytes)",
+        "enumeration: every representable length of each style x trailing data {none, 1 byte, 5 pseudo-random bytes, exactly n bytes}; 19 representative lengths per style x every amount of data 0..=1100 behind the prefix plus 4095 / 4096 / 65535..65537 / 65791 / 65792 / 100000; every Tlv / Adpu length x 11 amounts derived from the length (bytes swapped +-1, high byte, low byte, half, n-1, n+1, 65535-n, n^ff, n+256); every byte string of length <= 3 through each parser. non-trivial = length >= 1 / non-empty string; distinct by (style, length, trailing) resp. (style, bytes)",
         &["Reference prefix functions (this file) transcribe ZVT/BER length rules; lengths above a style's range are outside the property and not generated", "LLVAR strings with non-F high or non-decimal low nibbles and BER first bytes 0x80/0x83.. are only required not to panic"],
         true,
     )
